@@ -21,6 +21,12 @@ import beanquery  # noqa: E402
 from beancount.core import convert, inventory  # noqa: E402
 
 PROP = 'C12'
+
+
+def decimal_rel():
+    import decimal
+    return decimal.Decimal('1E-18')
+
 RULE = ('one run = one subject balance query over a generated ledger (multi-currency, lots at cost, reductions) with 0-3 '
         'interfering scans placed by the seed between and around its balance references (IN-subqueries, re-entrant '
         'executions on the same/another connection, some dying half-way by injected storage error or cancellation), plus '
@@ -31,14 +37,14 @@ ASSUMPTIONS = [
     'case A oracle uses the position cells of the same result (a WHERE/FROM bug cannot raise a C12 alarm); case B aligns returned rows to the all-postings sequence by (lineno, position)',
     'Inventory arithmetic (add_position, reduce) is beancount core and trusted',
 ]
-PROBES = ['scan_between_balance_refs', 'balance_scan_between_balance_refs', 'nested_scan_died_halfway', 'other_connection_scan',
+PROBES = ['aggregate_over_balance_checked', 'equal_consecutive_postings', 'scan_between_balance_refs', 'balance_scan_between_balance_refs', 'nested_scan_died_halfway', 'other_connection_scan',
           'where_consults_balance', 'from_clause_subject', 'lots_reduced_in_selection', 'in_subquery_touching_balance',
           'three_refs', 'nested_result_checked', 'rider_checked']
 
 REFS = ['balance', 'units(balance)', 'cost(balance)']
 FROMS = [None, None, None, 'year = 2020', 'year >= 2020 OPEN ON 2020-02-01', 'CLOSE ON 2020-03-01',
          'date >= 2020-01-10 CLEAR', 'OPEN ON 2020-01-20 CLOSE ON 2020-04-01']
-FILTERS = [None, None, 'account ~ "Assets"', 'number > 0', 'currency = "USD"', 'account ~ "Broker|Bank"',
+FILTERS = [None, None, 'account ~ "Equity"', 'account ~ "Assets"', 'number > 0', 'currency = "USD"', 'account ~ "Broker|Bank"',
            'number < 0', 'cost_number IS NOT NULL', 'account != "Income:PnL"']
 NESTED = [
     ('SELECT position AS pos, lineno AS ln, balance AS b0', True),
@@ -52,7 +58,10 @@ NESTED = [
 
 def generate(rng, tier, run):
     big = tier == 'thorough'
-    ledger = world.gen_ledger(rng, n_txn=rng.randint(3, 10 if not big else 20))
+    repeats = rng.random() < 0.3
+    ledger = world.gen_ledger(rng, n_txn=rng.randint(3, 10 if not big else 20), repeats=repeats)
+    if repeats and rng.random() < 0.6:
+        ledger['nometa'] = True
     other = world.gen_ledger(rng, n_txn=rng.randint(2, 5))
     nrefs = rng.choice([1, 2, 2, 2, 3])
     refs = [rng.choice(REFS) for _ in range(nrefs)]
@@ -120,6 +129,8 @@ def generate(rng, tier, run):
                     'real_parse': rng.random() < 0.05},
         'nested': nested,
         'riders': rng.random() < 0.5,
+        'aggbal': rng.choice([None, None, 0, 1, 2, 3]),
+        'aggfilter': rng.choice(FILTERS),
         'clients': [],
     }
 
@@ -166,6 +177,34 @@ def check_prefix(desc, rows, refs, full=None):
                 if len(problems) >= 3:
                     return problems
     return problems
+
+
+AGGBAL = [
+    'SELECT account, first(balance) AS f0, sum(balance) AS s0, count(position) AS n0',
+    'SELECT account, sum(balance) AS s0, sum(balance) AS s1, last(balance) AS l0',
+    'SELECT account, units(sum(balance)) AS u0, first(balance) AS f0, last(balance) AS l0',
+    'SELECT account, last(balance) AS l0, sum(balance) AS s0, first(balance) AS f0, sum(balance) AS s1',
+]
+
+
+def close_inventories(x, y, rel=decimal_rel()):
+    """Equal up to decimal rounding noise (convert()/value() through prices)."""
+    def as_map(inv):
+        m = {}
+        for p in inv.get_positions():
+            key = (p.units.currency, canon(p.cost))
+            m[key] = m.get(key, 0) + p.units.number
+        return {k: v for k, v in m.items() if v != 0}
+    a, b = as_map(x), as_map(y)
+    if set(a) != set(b):
+        # tiny residues may survive in one side only
+        for k in set(a) ^ set(b):
+            if abs(a.get(k, 0) + b.get(k, 0)) > rel:
+                return False
+    for k in set(a) & set(b):
+        if abs(a[k] - b[k]) > rel * max(1, abs(a[k]), abs(b[k])):
+            return False
+    return True
 
 
 def run_query(conn, arg):
@@ -272,6 +311,9 @@ def execute(case, keep_log=False):
             names = [c.name for c in desc]
             if any(r[names.index('pos')].units.number < 0 and r[names.index('pos')].cost is not None for r in rows):
                 S.probes['lots_reduced_in_selection'] += 1
+            if W['ledger'].get('nometa') and any(canon(rows[i][names.index('pos')]) == canon(rows[i + 1][names.index('pos')])
+                                                 for i in range(len(rows) - 1)):
+                S.probes['equal_consecutive_postings'] += 1
             full = None
             if sub['caseB']:
                 with world.reference_mode():
@@ -310,14 +352,18 @@ def execute(case, keep_log=False):
                     if exp != got:
                         violation('last-balance-not-sum', 'subject', {'expected': exp, 'observed': got, 'companion': comp})
             stats['nontrivial'] = bool(len(rows) >= 2 and (S.probes['scan_between_balance_refs'] or S.probes['nested_scans']))
-        # riders: exact homomorphism facts, evaluated in the same (interfered) world
+        # riders: homomorphism facts, evaluated in the same (interfered) world
         if case.get('riders'):
-            stats['ops'] += 3
+            stats['ops'] += 4
             try:
                 _, tot = run_query(conn, stmts.for_execute('SELECT sum(position) AS s', False))
                 _, grp = run_query(conn, stmts.for_execute('SELECT account, sum(position) AS s GROUP BY account', False))
                 _, uc = run_query(conn, stmts.for_execute(
                     'SELECT units(sum(position)) AS a, sum(units(position)) AS b, cost(sum(position)) AS c, sum(cost(position)) AS d', False))
+                _, cv = run_query(conn, stmts.for_execute(
+                    'SELECT convert(sum(position), "USD") AS a, sum(convert(position, "USD")) AS b, '
+                    'convert(sum(position), "EUR") AS c, sum(convert(position, "EUR")) AS d, '
+                    'value(sum(position)) AS e, sum(value(position)) AS f', False))
             except core.HarnessError:
                 raise
             except Exception as e:
@@ -334,7 +380,61 @@ def execute(case, keep_log=False):
                     violation('rider-units-homomorphism', 'riders', {'units(sum)': canon(a), 'sum(units)': canon(b)})
                 if canon(c_) != canon(d):
                     violation('rider-cost-homomorphism', 'riders', {'cost(sum)': canon(c_), 'sum(cost)': canon(d)})
+                # convert()/value(): equal up to decimal rounding (28 digits) - tolerant comparison
+                for name, x, y in (('convert-USD', cv[0][0], cv[0][1]), ('convert-EUR', cv[0][2], cv[0][3]),
+                                   ('value', cv[0][4], cv[0][5])):
+                    if not close_inventories(x, y):
+                        violation('rider-' + name + '-homomorphism', 'riders', {'f(sum)': canon(x), 'sum(f)': canon(y)})
                 log.add('riders', core.digest([canon(tot[0][0]), canon(a), canon(c_)])[:12])
+        # rider: aggregates over the running balance (sum/first/last of an inventory column whose cells the
+        # balance column hands out once per row to every reference)
+        if case.get('aggbal') is not None:
+            stats['ops'] += 1
+            q = AGGBAL[case['aggbal']]
+            flt = case.get('aggfilter')
+            text = q + (f' WHERE {flt}' if flt else '') + ' GROUP BY account'
+            comp = 'SELECT account, position' + (f' WHERE {flt}' if flt else '')
+            try:
+                ad, ar = run_query(conn, stmts.for_execute(text, False))
+                with world.reference_mode():
+                    rc = world.make_connection(W['ledger'], (), copy=1)
+                    _, cr = run_query(rc, stmts.fresh_ast(comp))
+            except core.HarnessError:
+                raise
+            except Exception as e:
+                violation('aggbal-failed', 'aggbal', {'stmt': text, 'raises': f'{core.exc_class(e)}: {e}'})
+            else:
+                S.probes['aggregate_over_balance_checked'] += 1
+                run = inventory.Inventory()
+                groups = {}
+                for acct, pos in cr:
+                    run.add_position(pos)
+                    g = groups.setdefault(acct, {'first': None, 'last': None, 'sum': inventory.Inventory(), 'n': 0})
+                    snap = copy.copy(run)
+                    if g['first'] is None:
+                        g['first'] = snap
+                    g['last'] = snap
+                    g['sum'].add_inventory(snap)
+                    g['n'] += 1
+                names = [c.name for c in ad]
+                for row in ar:
+                    g = groups.get(row[0])
+                    if g is None:
+                        violation('aggbal-unknown-group', 'aggbal', {'stmt': text, 'group': row[0]})
+                        break
+                    bad = None
+                    for nm, cell in zip(names[1:], row[1:]):
+                        kind = nm.rstrip('0123456789')
+                        exp = {'f': g['first'], 'l': g['last'], 's': g['sum'], 'u': g['sum'].reduce(convert.get_units),
+                               'n': g['n']}[kind]
+                        if canon(cell) != canon(exp):
+                            bad = {'stmt': text, 'group': row[0], 'column': nm, 'expected': canon(exp), 'observed': canon(cell),
+                                   'rows_in_group': g['n']}
+                            break
+                    if bad:
+                        violation('aggregate-over-balance', 'aggbal', bad)
+                        break
+                log.add('aggbal', text, core.digest(core.canon_rows(ar))[:12])
     finally:
         world.set_current(None)
     stats.setdefault('nontrivial', False)
